@@ -77,6 +77,14 @@ class Plain0:
     def tag(self) -> int: ...
 class GenFirst(Generic[T], Plain0):
     def gf(self) -> T: ...
+# a collection class whose type parameter is NOT its item type: a sequence of sequences of T
+class Jagged(ObjectStreamInternalMethods[Iterable[T]]):
+    def flat(self) -> Iterable[T]: ...
+# the abstract base class spelled the collections.abc way
+import collections.abc as _abc
+class AbcColl(_abc.Iterable[T]):
+    def abc_first(self) -> T: ...
+    def abc_size(self) -> int: ...
 class Node:
     # self-referential model: quoted forward references, also nested inside generic annotations
     def parent(self) -> "Node": ...
@@ -128,7 +136,35 @@ class Vtx(Base):
     def box(self) -> Box[Trk]: ...
     @func_adl_callback(_cb_new_node)
     def best(self) -> Trk: ...
+# several bases, the one that matters not the first
+class Named:
+    def name_len(self) -> int: ...
+class Other(Generic[T]):
+    def it(self) -> T: ...
+class NamedBox(Named, Box[U]):
+    def nb(self) -> U: ...
+class TwoBases(Box[Jet], Other[Trk]):
+    pass
+class NamedColl(Named, Iterable[Jet]):
+    pass
+@dataclass
+class W(Generic[T]):
+    value: T
+    n: int
+    vals: Iterable[T]
+@dataclass
+class WJ(W[Jet]):
+    extra: float
 class Event(Base):
+    def jag(self) -> Jagged[Trk]: ...
+    def jets_abc(self) -> AbcColl[Jet]: ...
+    def rawbox(self) -> Box: ...
+    def things(self) -> Iterable: ...
+    def nbox(self) -> NamedBox[Jet]: ...
+    def two(self) -> TwoBases: ...
+    def ncoll(self) -> NamedColl: ...
+    def w(self) -> W[Jet]: ...
+    def wj(self) -> WJ: ...
     def jc(self) -> JetContainer[Jet]: ...
     def sc(self) -> SubCollection[Trk]: ...
     def keyed(self) -> Keyed[float, Jet]: ...
@@ -183,12 +219,26 @@ def _subst(t, mapping):
     return t
 
 
+def _params(origin):
+    """type variables of a class in declaration order (a class deriving from collections.abc.Iterable[T] carries no
+    __parameters__ of its own: they are the variables of its bases in order of first appearance)"""
+    p = getattr(origin, "__parameters__", None)
+    if p is not None:
+        return tuple(p)
+    found = []
+    for b in getattr(origin, "__orig_bases__", ()):
+        for x in getattr(b, "__parameters__", ()):
+            if x not in found:
+                found.append(x)
+    return tuple(found)
+
+
 def bases_of(t):
     """parameterised bases of (possibly parameterised) type t"""
     origin = typing.get_origin(t) or t
     if not isinstance(origin, type):
         return []
-    params = getattr(origin, "__parameters__", ())
+    params = _params(origin)
     mapping = dict(zip(params, typing.get_args(t)))
     raw = [b for b in getattr(origin, "__orig_bases__", origin.__bases__) if typing.get_origin(b) is not typing.Generic and b is not typing.Generic]
     return [_subst(b, mapping) for b in raw]
@@ -196,11 +246,14 @@ def bases_of(t):
 
 def elem_of(t):
     """element type if t is (a subtype of) Iterable[X], else None"""
+    if t is typing.Iterable or t is collections.abc.Iterable:
+        return Any  # written without an item type
     if typing.get_origin(t) is collections.abc.Iterable:
         return typing.get_args(t)[0]
     o = typing.get_origin(t)
-    if isinstance(o, type) and len(typing.get_args(t)) == 1 and any(c.__name__ == "ObjectStream" for c in o.__mro__):
-        # a registered collection class given its item type (RegColl[Trk]) is a sequence of those items
+    if isinstance(o, type) and o.__name__ == "ObjectStream" and o.__module__ == "func_adl.object_stream":
+        # the library's own stream class: a sequence of its item type. (A collection class derived from it - RegColl[Trk],
+        # Jagged[Trk] - is whatever its bases say: Jagged[Trk] is a sequence of Iterable[Trk])
         return typing.get_args(t)[0]
     for b in bases_of(t):
         if b is object or typing.get_origin(b) is typing.Generic:
@@ -219,7 +272,7 @@ def method_ret(t, name):
         if "return" not in f.__annotations__:
             return Any
         ann = typing.get_type_hints(f, globalns=NS)["return"]  # resolves quoted / nested forward references
-        params = getattr(origin, "__parameters__", ())
+        params = _params(origin)
         return _subst(ann, dict(zip(params, typing.get_args(t))))
     for b in bases_of(t):
         if b is object or typing.get_origin(b) is typing.Generic:
@@ -229,6 +282,28 @@ def method_ret(t, name):
         except KeyError:
             continue
     raise KeyError(name)
+
+
+def _has_typevar(t):
+    return isinstance(t, typing.TypeVar) or any(_has_typevar(a) for a in typing.get_args(t))
+
+
+def field_types(t):
+    """fields of a (generic, inherited) dataclass type with type variables substituted; {} if t is no dataclass"""
+    import dataclasses
+
+    origin = typing.get_origin(t) or t
+    if not (isinstance(origin, type) and dataclasses.is_dataclass(origin)):
+        return {}
+    out = {}
+    for b in bases_of(t):
+        out.update(field_types(b))
+    own = origin.__dict__.get("__annotations__", {})
+    hints = typing.get_type_hints(origin, globalns=NS)
+    mapping = dict(zip(_params(origin), typing.get_args(t)))
+    for name in own:
+        out[name] = _subst(hints[name], mapping)
+    return out
 
 
 def same_type(got, exp):
@@ -286,8 +361,9 @@ class TGen:
             choices = []
             if e is not None:
                 choices += ["First", "Count", "len", "sub0", "Where", "Select", "own", "regop"]
-            if t is NS["Info"]:
-                choices += ["field", "fieldsub"]
+            fields = {k: ft for k, ft in field_types(t).items() if not _has_typevar(ft)}
+            if fields:
+                choices += ["field", "fieldsub"] * (1 if t is NS["Info"] else 3)
             ms = [m for m in self.methods(t) if m[0] not in ("Last",) or True]
             if ms:
                 choices += ["method"] * 3
@@ -302,6 +378,8 @@ class TGen:
                     rt = method_ret(t, name)
                 except KeyError:
                     break
+                if _has_typevar(rt):
+                    break  # (a class written without its arguments, `-> Box`: nothing is promised for `get() -> T`)
                 if typing.get_args(t) or inherited:
                     self.interesting = True
                 text, t = f"{text}.{name}()", rt
@@ -335,10 +413,12 @@ class TGen:
                 self.interesting = True
                 text, t = f"{text}.Select(lambda {v}: {bt})", typing.Iterable[btype]
             elif c == "field":
-                f, ft = r.choice([("n", int), ("x", float), ("t", NS["Trk"])])
+                f, ft = r.choice(sorted(fields.items()))
+                if typing.get_args(t) or t is not NS["Info"]:
+                    self.interesting = True
                 text, t = f"{text}.{f}", ft
             elif c == "fieldsub":
-                f, ft = r.choice([("n", int), ("x", float), ("t", NS["Trk"])])
+                f, ft = r.choice(sorted(fields.items()))
                 text, t = f"{text}['{f}']", ft
         return text, t
 
@@ -385,6 +465,9 @@ class TGen:
             text, t = self.expr(v, vt, self.r.randint(1, 3))
             parts.append((key, text, t))
         key, _, t = self.r.choice(parts)
+        if self.r.random() < 0.2:
+            # a key written twice holds its last value
+            parts.insert(0, (key, "1.5" if t is not float else "True", None))
         body = "{" + ", ".join(f"'{k}': {x}" for k, x, _ in parts) + "}"
         self.interesting = True
         return (f"{body}.{key}" if self.r.random() < 0.5 else f"{body}['{key}']"), t
